@@ -97,13 +97,16 @@ class ELFFile:
         The path recorded in the ``PT_INTERP`` section header.
         """
         for index in range(self._e_phnum):
-            self._f.seek(self._e_phoff + self._e_phentsize * index)
             try:
+                self._f.seek(self._e_phoff + self._e_phentsize * index)
                 data = self._read(self._p_fmt)
-            except struct.error:
+            except (struct.error, OverflowError):
                 continue
             if data[self._p_idx[0]] != 3:  # Not PT_INTERP.
                 continue
-            self._f.seek(data[self._p_idx[1]])
-            return os.fsdecode(self._f.read(data[self._p_idx[2]])).strip("\0")
+            try:
+                self._f.seek(data[self._p_idx[1]])
+                return os.fsdecode(self._f.read(data[self._p_idx[2]])).strip("\0")
+            except OverflowError as e:
+                raise ELFInvalid("unable to read the interpreter path") from e
         return None
